@@ -5,10 +5,12 @@ import (
 	"os"
 	"sync"
 
+	"encoding/binary"
 	"github.com/bbva/qed/storage"
 	"github.com/bbva/qed/storage/rocks"
 	"qedverif/cq"
 	"qedverif/storeops"
+	"sync/atomic"
 )
 
 func rocksStoreCmd(out *cq.Out, seed uint64, tier string) {
@@ -101,6 +103,63 @@ func largeBatchAtomic(out *cq.Out, seed uint64, tier string) {
 		select {
 		case msg := <-torn:
 			out.Violate("C14:batch-not-atomic:torn-read", msg, desc)
+		default:
+		}
+	}
+	// many small batches shaped like one applied entry (tree mutations, then the FSM state under its one fixed key, rewritten
+	// every time): a reader that sees the state of batch j also sees the tree entries of batch j - and of every earlier batch
+	{
+		const batches = 3000
+		stop := make(chan struct{})
+		torn := make(chan string, 1)
+		var wg sync.WaitGroup
+		var checks int64
+		for g := 0; g < 3; g++ {
+			wg.Add(1)
+			go func() {
+				defer wg.Done()
+				for {
+					select {
+					case <-stop:
+						return
+					default:
+					}
+					f, err := st.Get(storage.FSMStateTable, []byte("small-state"))
+					if err != nil || f == nil || len(f.Value) != 8 {
+						continue
+					}
+					j := binary.BigEndian.Uint64(f.Value)
+					h, herr := st.Get(storage.HistoryTable, []byte(fmt.Sprintf("small-%07d", j)))
+					atomic.AddInt64(&checks, 1)
+					if herr != nil || h == nil {
+						select {
+						case torn <- fmt.Sprintf("a reader saw the state entry of batch %d (a key rewritten by every batch) but not the history entry written by the same batch", j):
+						default:
+						}
+						return
+					}
+				}
+			}()
+		}
+		for j := uint64(0); j < batches; j++ {
+			v := make([]byte, 8)
+			binary.BigEndian.PutUint64(v, j)
+			muts := []*storage.Mutation{
+				storage.NewMutation(storage.HistoryTable, []byte(fmt.Sprintf("small-%07d", j)), v),
+				storage.NewMutation(storage.HyperTable, []byte(fmt.Sprintf("small-%07d", j)), v),
+				storage.NewMutation(storage.FSMStateTable, []byte("small-state"), v),
+			}
+			if err := st.Mutate(muts, []byte("meta")); err != nil {
+				panic(err)
+			}
+		}
+		close(stop)
+		wg.Wait()
+		out.Case("smallbatches", true)
+		out.Count("small_batch_reader_checks", int(atomic.LoadInt64(&checks)))
+		select {
+		case msg := <-torn:
+			out.Violate("C14:batch-not-atomic:torn-read:rewritten-key", msg, map[string]interface{}{"seed": seed, "batches": batches, "scenario": "small batches rewriting one state key, three readers"})
 		default:
 		}
 	}
